@@ -4,7 +4,42 @@ RS = "src/actor/restart_strategy.rs"
 ADDR = "src/addr.rs"
 WADDR = "src/addr/weak_addr.rs"
 SVC = "src/actor/service.rs"
+BLD = "src/actor/builder.rs"
+SPW = "src/actor/spawner.rs"
+SMOL = "src/actor/spawner/smol_spawner.rs"
+TOK = "src/actor/spawner/tokio_spawner.rs"
+AH = "src/actor/spawner/actor_handle.rs"
 MUTANTS = [
+ {"name": "spawn_stream_builder_drops_handle", "why": "the C18 defect: the handle is dropped, smol cancels the actor", "expect": {"props": ["C18"], "obligation": "stream-builder.spawn-keeps-the-actor-running"},
+  "edits": [(BLD, "        let (event_loop, addr) = env.create_loop_on_stream(actor, stream);\n        P::spawn_actor(event_loop).detach();\n        addr", "        let (event_loop, addr) = env.create_loop_on_stream(actor, stream);\n        let _handle = P::spawn_actor(event_loop);\n        addr")]},
+ {"name": "spawn_builder_spawn_drops_handle", "why": "ActorBuilderWithChannel::spawn forgets to detach", "expect": {"props": ["C18"], "obligation": "builder.spawn-spawns-what-was-configured-and-keeps-it-running"},
+  "edits": [(BLD, "        let (event_loop, addr) = env.create_loop(actor);\n        P::spawn_actor(event_loop).detach();\n        addr", "        let (event_loop, addr) = env.create_loop(actor);\n        let _handle = P::spawn_actor(event_loop);\n        addr")]},
+ {"name": "spawn_trait_spawn_drops_owning", "why": "Spawnable::spawn clones the address out of the OwningAddr and drops the handle", "expect": {"props": ["C18"], "obligation": "spawn.actor-keeps-running-after-return"},
+  "edits": [(SPW, "        self.spawn_owning().detach()\n", "        self.spawn_owning().to_addr()\n")]},
+ {"name": "spawn_smol_without_detach_fn", "why": "smol handle without a detach function: every detach() is a drop, which cancels", "expect": {"props": ["C18"], "obligation": "spawner.handle-drop-never-cancels-or-detach-provided"},
+  "edits": [(SMOL, """        .with_detach_fn(move || {
+            log::trace!("detaching smol task");
+            let mut handle = detach_handle.lock_blocking().take();
+            if let Some(handle) = handle.take() {
+                handle.detach();
+            }
+        })""", "")]},
+ {"name": "spawn_smol_future_not_detached", "why": "smol spawn_future drops the Task: timers are cancelled immediately", "expect": {"props": ["C18"], "obligation": "spawner.background-future-keeps-running"},
+  "edits": [(SMOL, "        smol::spawn(future).detach();", "        let _task = smol::spawn(future);")]},
+ {"name": "spawn_builder_timeout_dropped", "why": "the configured timeout never reaches the environment", "expect": {"props": ["C11"], "obligation": "builder.timeout-recorded-2"},
+  "edits": [(BLD, "        self.base.config.timeout = Some(timeout);\n        self", "        let _ = timeout;\n        self")]},
+ {"name": "spawn_builder_wrong_strategy", "why": "the builder's spawn ignores the selected restart strategy", "expect": {"props": ["C07"], "obligation": "builder.spawn-spawns-what-was-configured-and-keeps-it-running"},
+  "edits": [(BLD, """        let env = environment::Environment::<A, R>::from_channel(channel).with_config(config);
+        let (event_loop, addr) = env.create_loop(actor);
+        P::spawn_actor(event_loop).detach();""", """        let env = environment::Environment::<A, RestartOnly>::from_channel(channel).with_config(config);
+        let (event_loop, addr) = env.create_loop(actor);
+        P::spawn_actor(event_loop).detach();""")]},
+ {"name": "spawn_builder_capacity_ignored", "why": "bounded(n) builds a mailbox of a different capacity", "expect": {"props": ["C12"], "obligation": "builder.bounded-capacity-passed-through"},
+  "edits": [(BLD, "    pub fn bounded(self, capacity: usize) -> ActorBuilderWithChannel<A, P, RestartOnly> {\n        self.with_channel(Channel::bounded(capacity))", "    pub fn bounded(self, capacity: usize) -> ActorBuilderWithChannel<A, P, RestartOnly> {\n        let _ = capacity;\n        self.with_channel(Channel::bounded(16))")]},
+ {"name": "spawn_handle_detach_noop", "why": "ActorHandle::detach never runs the detach function", "expect": {"props": ["C18"], "obligation": "handle.detach-detaches-the-task"},
+  "edits": [(AH, "        if let Some(detach_fn) = self.detach_fn {\n            detach_fn();\n        }", "        let _ = self.detach_fn;")]},
+ {"name": "spawn_tokio_join_eats_value", "why": "tokio join maps a successful task to None and never hands the actor back", "expect": {"props": ["C17"], "obligation": "join.first-join-takes-the-value-later-joins-none"},
+  "edits": [(TOK, "                    handle.await.ok().and_then(Result::ok)", "                    handle.await.ok().and_then(Result::ok).filter(|_| false)")]},
  {"name": "svc_already_running_inverted", "why": "the C08 defect: maps through stopped", "expect": {"props": ["C08"], "obligation": "already_running.some-true-iff-alive"},
   "edits": [(SVC, "addr.downcast_ref::<Addr<Self>>().map(Addr::running))", "addr.downcast_ref::<Addr<Self>>().map(Addr::stopped))")]},
  {"name": "svc_register_replaces_live", "why": "register replaces a running service and refuses a dead one", "expect": {"props": ["C08"], "obligation": "register.live-instance-refused-registry-unchanged"},
